@@ -32,6 +32,11 @@ func main() {
 			fmt.Println("UNDECIDED:", err)
 			os.Exit(1)
 		}
+		if *dump == "idents" {
+			os.Stdout.Write(dumpInventory(p.Pkgs))
+			fmt.Println()
+			return
+		}
 		if *dump == "validators" {
 			ctx := &Ctx{P: p, Tier: *tier, VerifDir: *verifDir, cache: map[string]any{}}
 			v := ctx.Validation()
